@@ -280,8 +280,6 @@ def _parse_nh_sample(text, suffixes):
         labels = parse_labels(labelstext, True)
         name_end = labels_start
         name = text[:name_end]
-        if name.endswith(suffixes):
-            raise ValueError("the sample name of a native histogram with labels should have no suffixes", name)
         if not name:
             # Name might be in the labels
             if '__name__' not in labels:
@@ -291,7 +289,10 @@ def _parse_nh_sample(text, suffixes):
             # Edge case: the only "label" is the name definition.
             if not labels:
                 labels = None
-             
+        # Checked after a quoted name was taken from the labels, so that it applies to it too.
+        if name.endswith(suffixes):
+            raise ValueError("the sample name of a native histogram with labels should have no suffixes", name)
+
         nh_value = text[nh_value_start:]
         nat_hist_value = _parse_nh_struct(nh_value)
         return Sample(name, labels, None, None, None, nat_hist_value)
@@ -569,7 +570,8 @@ def text_fd_to_metric_families(fd):
             if typ == 'histogram':
                 # set to true to account for native histograms naming exceptions/sanitizing differences
                 is_nh = True
-                sample = _parse_nh_sample(line, tuple(type_suffixes['histogram']))
+                # A native histogram sample carries no float value, so no counter-like suffix may name it.
+                sample = _parse_nh_sample(line, tuple(type_suffixes['histogram']) + ('_total', '_gcount', '_gsum'))
                 # It's not a native histogram
                 if sample is None:
                     is_nh = False
